@@ -103,6 +103,8 @@ def run(repo, rep):
     rule_input_holes(repo, rep)
     rep.clause("C13-ax", "an operator that the optimisation driver itself creates from a subgraph's tensors (not from an operator that passed the checks) is submitted to the supported-operator check before the driver returns")
     rule_driver_created_operators(repo, rep)
+    rep.clause("C13-ay", "STRIDED_SLICE begin / end positions end up inside [0, dim] whatever the operand holds (the offsets become read windows unchecked)")
+    rule_slice_offsets_bounded(repo, rep)
     rep.clause("C13-au", "members of an operator's (optional) options table are read with .get() or under a membership test in the reader")
     rule_option_members_optional(repo, rep)
     rep.clause("C13-aq", "the scale check rejects a tensor if any of its scales is infinite (quantifier kept under negation)")
@@ -2585,3 +2587,34 @@ def rule_driver_created_operators(repo, rep):
                   "(SHAPE with out_type INT64, folded, as a graph output) ends in KeyError 64 in find_block_config")
     if not created:
         rep.ok("C13-ax", "ethosu/vela/tflite_graph_optimiser.py:tflite_optimise_graph", "no operator is created in the driver body", "nothing to submit")
+
+
+def rule_slice_offsets_bounded(repo, rep):
+    """`TFLiteSemantic._get_slice_offsets` turns the begin / end operands of STRIDED_SLICE into the offsets that
+    `Operation.get_split_inputs_axis` hands on as the read window; nothing between the two looks at them again. The function is
+    interpreted (engine interpreter, the repo's own source) for positions below -dim, inside, and above dim: every result lies in
+    [0, dim] and an in-range position keeps its meaning."""
+    from ..absint import AList, AObj, Interp
+
+    sem = repo.mod("tflite_model_semantic")
+    if sem.func("TFLiteSemantic._get_slice_offsets") is None:
+        raise AnalysisError("tflite_model_semantic.TFLiteSemantic._get_slice_offsets not found")
+    it = Interp(repo, sem)
+    dim = 8
+    wrong = []
+    pts = 0
+    for is_begin in (True, False):
+        for v in (-100, -9, -8, -3, 0, 5, 8, 9, 100):
+            tens = AObj("offset_tens", {"values": AList([0, v, 0, 0])}, cls="Tensor")
+            ps = [p_ for p_ in it.run("TFLiteSemantic._get_slice_offsets", lambda tens=tens, is_begin=is_begin: ([AList([1, dim, dim, 4]), tens, 0, is_begin], {})) if p_.kind == "return"]
+            if len(ps) != 1 or not isinstance(ps[0].value, AList) or not isinstance(ps[0].value.items[1], int):
+                raise AnalysisError(f"_get_slice_offsets not evaluable for position {v}: {[(p_.kind, p_.value) for p_ in ps][:2]}")
+            got = ps[0].value.items[1]
+            want = max(0, min(v + dim if v < 0 else v, dim))
+            pts += 1
+            if got != want:
+                wrong.append((("begin" if is_begin else "end"), v, got, want))
+    rep.check(not wrong, "C13-ay", "ethosu/vela/tflite_model_semantic.py:TFLiteSemantic._get_slice_offsets",
+              f"begin / end positions are normalised into [0, dim] ({pts} points, dim {dim})",
+              (f"{wrong[0][0]} = {wrong[0][1]} in a dimension of {dim} becomes offset {wrong[0][2]} (TFLite clamps: {wrong[0][3]}): the offset is used as a read window as it is "
+               "(STRIDED_SLICE with begin -100: AssertionError in Tensor.address_for_coordinate)") if wrong else "")
